@@ -44,6 +44,24 @@ set_option linter.unusedSectionVars false
 namespace Compmech.C10.Props
 open Compmech.C10
 
+/-! ## The exact side is Bardell's closed formula (`theory/func/bardell/bardell.py`) -/
+
+/-- functions `u_{r−1}`, `r ≥ 5`: the coefficient of `ξ^e`, `e = r−2n−1`, stored fraction-free as `bnum r e / bden r`,
+is `(−1)ⁿ (2r−2n−7)!! / (2ⁿ n! (r−2n−1)!)`  (`oddDF m = (2m−1)!!`, so `oddDF (r−n−3) = (2r−2n−7)!!`, `oddDF 0 = (−1)!! = 1`);
+coefficients of the other parity are `0` by definition of `bnum`. -/
+theorem bardell_closed_formula (r n e : Nat) (h : e + 2 * n + 1 = r) :
+    ((bnum r e : Int) : ℚ) / (bden r : ℚ) =
+      (-1) ^ n * (oddDF (r - n - 3) : ℚ) / ((2 : ℚ) ^ n * (fact n : ℚ) * (fact e : ℚ)) :=
+  bnum_closed_formula r n e h
+
+/-- the first four functions are the cubic Hermite functions (to be multiplied by their edge flags) -/
+theorem bardell_hermite (x : ℚ) :
+    (basis 0).eval x = 1 / 2 - 3 / 4 * x + 1 / 4 * x ^ 3 ∧
+    (basis 1).eval x = 1 / 8 - 1 / 8 * x - 1 / 8 * x ^ 2 + 1 / 8 * x ^ 3 ∧
+    (basis 2).eval x = 1 / 2 + 3 / 4 * x - 1 / 4 * x ^ 3 ∧
+    (basis 3).eval x = -1 / 8 - 1 / 8 * x + 1 / 8 * x ^ 2 + 1 / 8 * x ^ 3 :=
+  hermite_eval x
+
 /-! ## Function tables (`bardell_functions.c`) -/
 
 /-- `calc_f`: for every `i < 30` the C expression has exactly the monomials of `flag_i · D^0 u_i(ξ)` (flag only
